@@ -5,6 +5,7 @@ import (
 	"context"
 	"fmt"
 	"sync"
+	"sync/atomic"
 	"time"
 
 	lru "github.com/hashicorp/golang-lru"
@@ -28,7 +29,8 @@ type cursorManager struct {
 	*Server
 	mu           sync.RWMutex
 	cache        *lru.Cache
-	disableCache bool // Used for testing purposes only
+	writes       uint64 // Number of cursor writes and cache purges (atomic)
+	disableCache bool   // Used for testing purposes only
 }
 
 func newCursorManager(s *Server) *cursorManager {
@@ -84,6 +86,10 @@ func (c *cursorManager) Initialize() error {
 func (c *cursorManager) BecomePartitionLeader() {
 	// Clear the cache when we become leader to avoid serving potentially stale
 	// cursors.
+	// NOTE: this must not take the manager's mutex. SetCursor holds it while
+	// its publish resumes a paused cursors partition, which makes this server
+	// the partition leader again and ends up here.
+	atomic.AddUint64(&c.writes, 1)
 	c.cache.Purge()
 }
 
@@ -140,6 +146,7 @@ func (c *cursorManager) SetCursor(ctx context.Context, streamName, cursorID stri
 	}
 
 	// Cache the offset.
+	atomic.AddUint64(&c.writes, 1)
 	c.cache.Add(string(cursorKey), cursor.Offset)
 
 	return nil
@@ -164,14 +171,15 @@ func (c *cursorManager) GetCursor(ctx context.Context, streamName, cursorID stri
 		return 0, status.New(codes.FailedPrecondition, "Server not cursor partition leader")
 	}
 
+	c.mu.RLock()
 	if !c.disableCache {
-		c.mu.RLock()
 		if offset, ok := c.cache.Get(string(cursorKey)); ok {
 			c.mu.RUnlock()
 			return offset.(int64), nil
 		}
-		c.mu.RUnlock()
 	}
+	writes := atomic.LoadUint64(&c.writes)
+	c.mu.RUnlock()
 
 	// Find the latest offset for the cursor in the log.
 	offset, err := c.getLatestCursorOffset(ctx, cursorKey, partition)
@@ -181,9 +189,13 @@ func (c *cursorManager) GetCursor(ctx context.Context, streamName, cursorID stri
 
 	verifGate("cursors.fetch.scanned")
 
-	// Cache the offset.
+	// Cache the offset unless a cursor was written (or the cache was purged)
+	// since the log was read: the value read may be older than what a
+	// concurrent SetCursor has put in the cache.
 	c.mu.Lock()
-	c.cache.Add(string(cursorKey), offset)
+	if atomic.LoadUint64(&c.writes) == writes {
+		c.cache.Add(string(cursorKey), offset)
+	}
 	c.mu.Unlock()
 
 	return offset, nil
